@@ -11,15 +11,19 @@ def consts(insts, stop, dev, compress=False, ops=OPS, timeouts='{2,3}', ticks='{
                 Scen='{"base","high"}', Ops=ops, Adapter="TRUE", Compress="TRUE" if compress else "FALSE", Kinds='{}', Creds='{}', Dev=dev)
 
 
-def replay_set(R, hs, compress, known_total, probe=True):
+GRIDS = [(1.0, 1.0), (0.0, 0.125), (2.0, 0.5), (0.1, 0.05)]      # (start, dt) of the reference model; the specification counts steps
+
+
+def replay_set(R, hs, compress, known_total, probe=True, grid=(1.0, 1.0)):
     for hist in hs:
         known = []
-        bad = srv_replay.replay(hist, stop=4, adapter=True, compress=compress, base_constants=True, probe=probe, known=known, two=True)
+        bad = srv_replay.replay(hist, stop=4, adapter=True, compress=compress, base_constants=True, probe=probe, known=known, two=True, grid=grid)
         R.add("traces_validated_against_impl")
         for k in known:
             known_total[k[0]] = known_total.get(k[0], 0) + 1
         if bad:
             bad["compress"] = compress
+            bad["model_grid"] = {"start": grid[0], "dt": grid[1]}
             R.violation(bad["clause"], bad)
             if len(R.violations) >= 20:
                 return False
@@ -49,6 +53,11 @@ def run(tier, replay_file=None):
                                   seed=common.seed() * 10 + n, cache=False)
             if not replay_set(R, hs, compress, known_total):
                 break
+            # the same histories on time grids that are not whole numbers (labels with three decimals, decimal dt)
+            # (uncompressed format only: the compressed format renumbers its steps 1.0, 2.0, ..., which is KF-C19-1)
+            for g in ([] if compress else GRIDS[1:] if (not quick or n == 1) else [GRIDS[1]]):
+                if not replay_set(R, hs, compress, known_total, grid=g):
+                    break
     R.cov["known_matches"] = known_total
     R.sample([{a: b for a, b in h.items() if a not in ("rows", "want", "row")} for h in hs[0]])
     f = R.findings.open_for("C19") + [e for e in R.findings.entries if e.get("status") == "open" and "C19" in e.get("also", [])]
@@ -66,6 +75,6 @@ def run(tier, replay_file=None):
             break
     if ctl is not None and srv_replay.replay(ctl, stop=4, adapter=True, base_constants=True, known=[]) is None:
         raise common.Machinery("negative control not rejected")
-    R.assumptions += ["reference model start 1, dt 1 (other run specs: C05/C09); FileAdapter on a scratch directory; both compression modes",
+    R.assumptions += ["reference model on the grids (start, dt) = (1, 1), (0, 0.125), (2, 0.5), (0.1, 0.05); FileAdapter on a scratch directory; both compression modes",
                       "restore paths: lazy restore after a sweep, /save-state + /load-state, new server object on the same directory"]
     return R.finish()
